@@ -227,6 +227,26 @@ static void run_tofile(uint64_t i) {
 }
 static void desc_tofile(uint64_t i, FILE *o) { int fam = i % 3; i /= 3; int fmt = i % NFORMATS; i /= NFORMATS; k_json_bytes(o, "src", A_macro->f[i].s, A_macro->f[i].n > 300 ? 300 : A_macro->f[i].n); fprintf(o, ",\"family\":%d,", fam); json_cfg(o, fmt, EXT_DEFAULT, 0); }
 
+/* ---- one engine reused for several conversions (re-parse frees / keeps what the previous parse built) */
+static k_alpha *A_reuse;
+static void reuse_decode(uint64_t i, int *di, int *f1, int *f2) { *f2 = i % NFORMATS; i /= NFORMATS; *f1 = i % NFORMATS; i /= NFORMATS; *di = (int)i; }
+static void run_reuse(uint64_t i) {
+	int di, f1, f2; reuse_decode(i, &di, &f1, &f2);
+	POOL_INIT();
+	mmd_engine *e = mmd_engine_create_with_string((const char *)A_reuse->f[di].s, EXT_DEFAULT);
+	uint64_t h = K_FNV0;
+	K_TRY({
+		srand(1); DString *a = mmd_engine_convert_to_data(e, f1, assets_dir); if (a) { h = k_fnv(a->str, a->currentStringLength, h); d_string_free(a, true); }
+		srand(1); DString *b = mmd_engine_convert_to_data(e, f2, assets_dir); if (b) { h = k_fnv(b->str, b->currentStringLength, h); d_string_free(b, true); }
+		size_t end; mmd_engine_has_metadata(e, &end);
+		char *c = mmd_engine_convert(e, FORMAT_HTML); if (c) { h = k_fnv(c, strlen(c), h); free(c); }
+	});
+	if (!k_exited) mmd_engine_free(e, true);
+	k_outcome(h);
+	POOL_DRAIN();
+}
+static void desc_reuse(uint64_t i, FILE *o) { int di, f1, f2; reuse_decode(i, &di, &f1, &f2); k_json_bytes(o, "src", A_reuse->f[di].s, A_reuse->f[di].n > 300 ? 300 : A_reuse->f[di].n); fprintf(o, ",\"engine_reuse\":[\"%s\",\"%s\",\"html\"],\"pool\":\"%s\"", FORMAT_NAMES[f1], FORMAT_NAMES[f2], POOL_MODE); }
+
 int main(int argc, char **argv) {
 	snprintf(assets_dir, sizeof assets_dir, "%s/fixtures/assets", k_verif_dir());
 	snprintf(scratch, sizeof scratch, "%s/build/scratch", k_verif_dir()); mkdir(scratch, 0755);
@@ -236,6 +256,7 @@ int main(int argc, char **argv) {
 	A_lines = k_alpha_load("lines"); A_linecore = k_alpha_sub(A_lines, 0, 36); A_macro = k_alpha_load("macro");
 	A_pre = k_alpha_load("ctx_pre"); A_post = k_alpha_load("ctx_post"); A_xml = k_alpha_load("xml");
 	extsub_init();
+	A_reuse = alpha_cat(A_macro, A_linecore);
 	{ const char *x = PIVOTS[3]; seed_zip = zip_wrap(x, strlen(x)); }
 
 	/* quick */
@@ -263,6 +284,7 @@ int main(int argc, char **argv) {
 		{ "q_readers", k_seq_count(A_xml->n, 1, 2) * NXSKEL * 4, run_xml, desc_xml, "q", "OPML/ITMZ readers: xml fragment sequences len<=2 in 6 skeletons x 4 entry points" },
 		{ "q_zipmut", seed_zip->currentStringLength * 3 + 1, run_zipmut, desc_zipmut, "qt", "ITMZ archive reader: every prefix and every single-byte 00/FF substitution of a valid archive" },
 		{ "q_tofile", (uint64_t)A_macro->n * NFORMATS * 3, run_tofile, desc_tofile, "qt", "convert_to_file: macro docs x 13 formats x 3 API families" },
+		{ "q_engine_reuse", (uint64_t)(A_macro->n + 36) * NFORMATS * NFORMATS, run_reuse, desc_reuse, "qt", "one engine reused: convert(f1), convert(f2), has_metadata, convert(html) for macro and line documents x 13 x 13 formats" },
 		{ "t_inline2", space_count(&SP[3]), run3, desc3, "t", "inline len<=2 x 8 contexts x 13 formats x 8 extension sets" },
 		{ "t_lines3", space_count(&SP[5]), run5, desc5, "t", "line fragments len<=3 x 13 formats x 8 extension sets" },
 		{ "t_extsub", n_extsub_t * 6 * NFORMATS, run_extt, desc_extt, "t", "all 2^17 extension subsets x 6 pivots x 13 formats" },
